@@ -33,6 +33,7 @@ type Locker interface {
 
 type Mutex struct{ st simrt.MutexState }
 
+//go:noinline
 func (m *Mutex) Lock() {
 	s := "lock"
 	if SiteNames {
@@ -41,6 +42,7 @@ func (m *Mutex) Lock() {
 	m.st.Lock(s)
 }
 
+//go:noinline
 func (m *Mutex) Unlock() {
 	s := "unlock"
 	if SiteNames {
@@ -50,19 +52,29 @@ func (m *Mutex) Unlock() {
 }
 
 // SimOwner reports the simulated goroutine holding the mutex.
+//
+//go:noinline
 func (m *Mutex) SimOwner() *simrt.G { return m.st.Owner() }
 
 // RWMutex is implemented as an exclusive lock (a refinement: every
 // behaviour it allows, sync.RWMutex allows).
 type RWMutex struct{ Mutex }
 
-func (m *RWMutex) RLock()   { m.Lock() }
+//go:noinline
+func (m *RWMutex) RLock() { m.Lock() }
+
+//go:noinline
 func (m *RWMutex) RUnlock() { m.Unlock() }
 
 type WaitGroup struct{ st simrt.WGState }
 
+//go:noinline
 func (w *WaitGroup) Add(d int) { w.st.Add("wg.Add", d) }
-func (w *WaitGroup) Done()     { w.st.Add("wg.Done", -1) }
+
+//go:noinline
+func (w *WaitGroup) Done() { w.st.Add("wg.Done", -1) }
+
+//go:noinline
 func (w *WaitGroup) Wait() {
 	s := "wg.Wait"
 	if SiteNames {
@@ -70,8 +82,11 @@ func (w *WaitGroup) Wait() {
 	}
 	w.st.Wait(s)
 }
+
+//go:noinline
 func (w *WaitGroup) SimN() int { return w.st.N() }
 
 type Once struct{ st simrt.OnceState }
 
+//go:noinline
 func (o *Once) Do(f func()) { o.st.Do("once", f) }
